@@ -410,7 +410,9 @@ pub fn write_bg_singlethreaded(
                 
                 0 <= i__1 < chroms@.len(), *chrom == chroms@[i__1 as int],
                 bigwig.file() == f0, bigwig.table() == old(bigwig).table(), wanted(old(bigwig).table(), chrom0) == Some(chroms@),
+                
                 bigwig.queries() == q0 + all_queries(chroms@, i__1 as int, s_, e_).push(chrom_query(*chrom, s_, e_)),
+                
                 chrom_answer::<Value>(f0, *chrom, s_, e_) == Ok::<Seq<Result<Value, BBIReadError>>, BBIReadError>(values.all()),
                 values.pos() <= values.all().len(),
                 
